@@ -168,9 +168,48 @@ def run(ctx) -> None:
     from .c13 import watch_identity
 
     watch_identity(ctx, RE, P)
+    ROQ = ctx.rule("C04/each-observer-has-its-own-queue", "the queue a dispatcher consumes is created per instance: the value stored in its queue field is a constructor call made in `__init__`'s body, or a parameter without a shared default (a default such as `event_queue=EventQueue()` is evaluated once, at definition time: all observers of the process would then consume one queue, and an observer's events reach another observer's handlers)", floor=1)
+    own_queue_per_dispatcher(ctx, ROQ, P)
     RH1 = ctx.rule("C04/registry-holds-a-handler-once", "the per-watch handler collection cannot hold one handler twice: it is a set, or every insertion into it is made under a failed membership test of that handler in it (dispatch walks the collection and calls each element: a handler held twice -- schedule() called twice for an equal watch -- is passed every event twice, and one remove leaves it registered)", floor=1)
     registry_holds_a_handler_once(ctx, RH1, P)
     ctx.assumptions += ["threading.RLock provides mutual exclusion and re-entrancy", "queue.Queue is FIFO and hands each item to exactly one get()"]
+
+
+def own_queue_per_dispatcher(ctx, RULE, P) -> None:
+    ini = P.find_method("EventDispatcher", "__init__")
+    if ini is None:
+        raise AnalysisError("anchor vanished: EventDispatcher.__init__")
+    a = ini.node.args
+    pos = a.posonlyargs + a.args
+    defaults = dict(zip([x.arg for x in pos[len(pos) - len(a.defaults) :]], a.defaults))
+    defaults.update({x.arg: d for x, d in zip(a.kwonlyargs, a.kw_defaults) if d is not None})
+    stores = [n for n in ast.walk(ini.node) if isinstance(n, (ast.Assign, ast.AnnAssign)) and any(isinstance(t, ast.Attribute) and t.attr in ("_event_queue", "event_queue") and isinstance(t.value, ast.Name) and t.value.id == "self" for t in (n.targets if isinstance(n, ast.Assign) else [n.target]))]
+    if not stores:
+        raise AnalysisError("EventDispatcher.__init__ does not store the event queue")
+    from ..flow import origins
+
+    for st in stores:
+        if st.value is None:
+            continue
+        for base, wr in sorted(origins(ini.node, st.value)):
+            shared = None
+            if base.startswith("param:"):
+                d = defaults.get(base[6:])
+                if d is not None and not (isinstance(d, ast.Constant) and d.value is None):
+                    shared = f"the default of parameter `{base[6:]}`, `{ast.unparse(d)[:40]}`, which is evaluated once when the function is defined"
+            elif base.startswith("expr:") or wr:
+                pass  # built here (a call in the body, possibly wrapped): fresh per instance
+            elif not base.startswith("self."):
+                cm = ini.module.consts.get(base.split(".")[0])
+                if cm is not None and isinstance(cm, ast.Call):
+                    shared = f"the module-level object `{base}`"
+            ctx.check(
+                shared is None,
+                RULE,
+                f"EventDispatcher.__init__: the queue field is `{ast.unparse(st.value)[:50]}`",
+                f"the queue every instance consumes is {shared}: all observers in the process put on and consume one queue, so an event queued by one observer's emitter is dispatched by another observer to *its* handlers for an equal watch (or dropped), and never reaches the handlers registered for it",
+                f"{ini.module.relpath}:{st.lineno}",
+            )
 
 
 def registry_holds_a_handler_once(ctx, RULE, P, field: str = "_handlers") -> None:
